@@ -39,6 +39,8 @@ def run(tier, seed):
                     exception_is_failure=True, timeout_is_failure=True, quick_k=2, thorough_k=3)
     from .c17 import add_cons
     add_cons(rep, "C01")
+    from .c17 import add_refdef
+    add_refdef(rep, "C01")
     from .c17 import add_list
     add_list(rep, "C01")
     rep.explanation = (
